@@ -57,18 +57,43 @@ theorem prepared_equiv_plain (isServer : Bool) (level : Int) (t : Nat) (ht : t =
   rw [hw, List.nil_append] at h
   exact ⟨h.1, h.2.2.1⟩
 
-/-- a cache hit sends the cached image in one transport write under the connection's deadline -/
-theorem cached_image_sent (s : W) (pm : PM) (img : Bytes) (h : pm.lookup (prepKey s pm) = some img) :
-    writePrepared s pm none = ((writePreparedImage s pm.t img).1, (writePreparedImage s pm.t img).2, pm) := by
+/-- with no writer open the implicit close of `NextWriter` / `WriteMessage` / `WritePreparedMessage`
+    does nothing -/
+theorem closePrev_none (s : W) (dnp : List Bytes) (fullp : Bytes) (h : s.writer = none) :
+    closePrev s dnp fullp = s := by
+  unfold closePrev; rw [h]
+
+/-- the send half: for a control type, or when the application left no writer open, it is exactly one
+    `Conn.write` of the image under the connection's deadline (the behaviour before the repair of F8);
+    for a data type with a writer open that writer is closed first -/
+theorem writePreparedImage_eq (s : W) (t : Int) (img : Bytes) (dnp : List Bytes) (fullp : Bytes) :
+    writePreparedImage s t img dnp fullp =
+      connWrite (if isData t = true then closePrev s dnp fullp else s) t
+        (if isData t = true then closePrev s dnp fullp else s).deadline img [] := rfl
+
+theorem writePreparedImage_noWriter (s : W) (t : Int) (img : Bytes) (dnp : List Bytes) (fullp : Bytes)
+    (h : isData t = false ∨ s.writer = none) :
+    writePreparedImage s t img dnp fullp = connWrite s t s.deadline img [] := by
+  rw [writePreparedImage_eq]
+  rcases h with h | h
+  · rw [h]; rfl
+  · rw [closePrev_none s dnp fullp h]; split <;> rfl
+
+/-- a cache hit sends the cached image (after the implicit close of an open writer, for a data message)
+    in one transport write under the connection's deadline -/
+theorem cached_image_sent (s : W) (pm : PM) (img : Bytes) (dnp : List Bytes) (fullp : Bytes)
+    (h : pm.lookup (prepKey s pm) = some img) :
+    writePrepared s pm none dnp fullp =
+      ((writePreparedImage s pm.t img dnp fullp).1, (writePreparedImage s pm.t img dnp fullp).2, pm) := by
   unfold writePrepared
   simp only [h]
 
 /-- cache_sound: sending never changes or removes an entry that is already cached, and never
     changes the type or the payload fixed at creation -/
-theorem cache_monotone (s : W) (pm : PM) (env : Option (Bytes × Bytes)) (k : PKey) (img : Bytes)
-    (h : pm.lookup k = some img) :
-    (writePrepared s pm env).2.2.lookup k = some img ∧ (writePrepared s pm env).2.2.t = pm.t ∧
-    (writePrepared s pm env).2.2.data = pm.data := by
+theorem cache_monotone (s : W) (pm : PM) (env : Option (Bytes × Bytes)) (dnp : List Bytes) (fullp : Bytes)
+    (k : PKey) (img : Bytes) (h : pm.lookup k = some img) :
+    (writePrepared s pm env dnp fullp).2.2.lookup k = some img ∧ (writePrepared s pm env dnp fullp).2.2.t = pm.t ∧
+    (writePrepared s pm env dnp fullp).2.2.data = pm.data := by
   have hl : ∀ x : PKey × Bytes, ({ pm with cache := pm.cache ++ [x] } : PM).lookup k = some img :=
     fun x => lookup_append pm k img x h
   unfold writePrepared
@@ -86,9 +111,9 @@ theorem cache_monotone (s : W) (pm : PM) (env : Option (Bytes × Bytes)) (k : PK
       · exact ⟨hl _, rfl, rfl⟩
 
 /-- an entry added for an uncompressed key is the rendering for exactly that key (never another key's image) -/
-theorem cache_adds_own_key (s : W) (pm : PM) (env : Option (Bytes × Bytes))
+theorem cache_adds_own_key (s : W) (pm : PM) (env : Option (Bytes × Bytes)) (dnp : List Bytes) (fullp : Bytes)
     (hmiss : pm.lookup (prepKey s pm) = none) (hplain : (prepKey s pm).compress = false) :
-    (writePrepared s pm env).2.2.cache =
+    (writePrepared s pm env dnp fullp).2.2.cache =
       pm.cache ++ [(prepKey s pm, (renderPlain (prepKey s pm) pm.t pm.data s.keys s.keyIdx).2.1)] := by
   unfold writePrepared
   simp only [hmiss, hplain, Bool.false_eq_true, if_false]
